@@ -414,13 +414,13 @@ def idlist(tok):
 
 
 class MRx:
-    def __init__(self, cur, asyn, derived=False):
+    def __init__(self, cur, asyn, derived=None):
         self.cur = self.start = cur
         self.asyn = asyn
         self.live = True
         self.closed = False        # close() returned Ok on this handle (or on the handle it was converted from)
         self.reg = True            # counts for backpressure in the property's sense: live and not closed
-        self.derived = derived     # obtained from a closed handle through Clone / to_sync / to_async
+        self.derived = derived     # None | "clone" | "conv": obtained from a closed handle through Clone / to_sync,to_async
         self.disc = False          # observed Disconnected while not closed
         self.got = []
 
@@ -475,20 +475,33 @@ def monitor(line, out):
     def any_derived():
         return any(x.derived and x.live for x in rx.values())
 
+    def dclause(x=None):
+        """narrow clause id for anomalies that go back to a handle derived from a closed handle"""
+        if x is not None:
+            return "C07:clone-of-closed" if x.derived == "clone" else "C04:convert-reopens-receiver"
+        if any(y.derived == "clone" and y.live for y in rx.values()):
+            return "C07:clone-of-closed"
+        return "C04:convert-reopens-receiver"
+
+    def sclause(generic):
+        return "C04:convert-reopens-sender" if s_derived else generic
+
     def deliver(r, x, vs, what):
         for v in vs:
             delivered[v] = delivered.get(v, 0) + 1
             if x.closed:
                 hit("C04:closed-handle-accepts", "%s on closed receiver %d returned value %d" % (what, r, v))
+            if x.derived == "conv":
+                hit("C04:convert-reopens-receiver", "%s on receiver %d, converted after close() returned Ok, returned value %d" % (what, r, v))
             if x.disc:
-                hit("C04:value-after-disc-reopened" if s_derived else "C04:value-after-disc", "receiver %d got %d after Disconnected" % (r, v))
+                hit(sclause("C04:value-after-disc"), "receiver %d got %d after Disconnected" % (r, v))
             if x.cur < len(log) and log[x.cur] == v:
                 x.cur += 1
                 x.got.append(v)
             else:
                 exp = log[x.cur] if x.cur < len(log) else None
                 if x.derived:
-                    hit("C07:derived-from-closed", "receiver %d (derived from a closed handle) got %d, next in its view is %r" % (r, v, exp))
+                    hit(dclause(x), "receiver %d (derived from a closed handle) got %d, next in its view is %r" % (r, v, exp))
                 elif v not in log:
                     hit("C07:phantom", "receiver %d got %d which was never accepted" % (r, v))
                 else:
@@ -500,8 +513,10 @@ def monitor(line, out):
         if x.closed:
             hit("C04:closed-handle-accepts", "%s on closed receiver %d returned Empty/Pending, not Disconnected" % (what, r))
             return
-        if x.cur < len(log):
-            hit("C07:derived-from-closed" if x.derived else "C07:empty-wrong", "%s on receiver %d says empty at position %d, head %d" % (what, r, x.cur, len(log)))
+        if x.derived == "conv":
+            hit("C04:convert-reopens-receiver", "%s on receiver %d, converted after close() returned Ok, is answered as if open" % (what, r))
+        elif x.cur < len(log):
+            hit(dclause(x) if x.derived else "C07:empty-wrong", "%s on receiver %d says empty at position %d, head %d" % (what, r, x.cur, len(log)))
         elif s_gone and not s_derived:
             hit("C07:disc-missing", "%s on receiver %d says empty although the sender is gone and its view is drained" % (what, r))
 
@@ -511,7 +526,7 @@ def monitor(line, out):
         if not s_gone:
             hit("C07:disc-early", "%s on receiver %d says Disconnected while the sender is alive" % (what, r))
         elif x.cur < len(log):
-            hit("C07:derived-from-closed" if x.derived else "C07:disc-early", "%s on receiver %d says Disconnected at position %d, head %d" % (what, r, x.cur, len(log)))
+            hit(dclause(x) if x.derived else "C07:disc-early", "%s on receiver %d says Disconnected at position %d, head %d" % (what, r, x.cur, len(log)))
         x.disc = True
 
     # ---- C06 bookkeeping
@@ -577,7 +592,7 @@ def monitor(line, out):
             offer([v])
             if o[0] == "ok":
                 if s_closed:
-                    hit("C04:closed-handle-accepts", "%s on closed sender accepted" % what)
+                    hit(sclause("C04:closed-handle-accepts"), "%s on closed sender accepted" % what)
                 check_accept(1, what)
                 accept([v])
             elif o[0] == "full":
@@ -585,7 +600,7 @@ def monitor(line, out):
                 if sp is None:
                     hit("C04:send-after-last-rx", "%s says Full with no live receiver (expected Closed)" % what)
                 elif sp > 0 and not s_closed:
-                    hit("C07:derived-from-closed" if any_derived() else "C07:full-wrong", "%s says Full at head=%d, slowest live receiver at %d, cap %d" % (what, len(log), min(live_cursors()), cap))
+                    hit(dclause() if any_derived() else "C07:full-wrong", "%s says Full at head=%d, slowest live receiver at %d, cap %d" % (what, len(log), min(live_cursors()), cap))
                 if len(o) < 2 or int(o[1]) != v:
                     hit("C04:value-not-returned", "%s -> %s" % (what, " ".join(o)))
             elif o[0] == "closed":
@@ -612,7 +627,7 @@ def monitor(line, out):
                 hit("C07:batch-split", "%s: sent %d + unsent %r is not the input" % (what, k, un))
             if k:
                 if s_closed:
-                    hit("C04:closed-handle-accepts", "%s on closed sender accepted" % what)
+                    hit(sclause("C04:closed-handle-accepts"), "%s on closed sender accepted" % what)
                 check_accept(k, what)
                 accept(vs[:k])
             if un:
@@ -623,11 +638,11 @@ def monitor(line, out):
                 if not closedish and sp is None and not s_closed:
                     hit("C04:send-after-last-rx", "%s says Full with no live receiver" % what)
                 if not closedish and sp is not None and sp > 0 and not s_closed:
-                    hit("C07:derived-from-closed" if any_derived() else "C07:full-wrong", "%s left %d unsent with space %d" % (what, len(un), sp))
+                    hit(dclause() if any_derived() else "C07:full-wrong", "%s left %d unsent with space %d" % (what, len(un), sp))
         elif t == "scl":
             if o[0] == "ok":
                 if s_closed:
-                    hit("C04:double-close", "second close of the sender returned Ok")
+                    hit(sclause("C04:double-close"), "second close of the sender returned Ok")
                 s_closed = True
                 s_gone = True
             elif o[0] == "cerr" and not s_closed:
@@ -679,7 +694,9 @@ def monitor(line, out):
             x = rx.get(int(op[1]))
             if o[0] == "ok":
                 if x.closed:
-                    hit("C04:double-close-reopened" if x.derived else "C04:double-close", "second close of receiver %s returned Ok" % op[1])
+                    hit("C04:double-close", "second close of receiver %s returned Ok" % op[1])
+                if x.derived == "conv":
+                    hit("C04:convert-reopens-receiver", "close of receiver %s returned Ok a second time (converted after the first)" % op[1])
                 x.closed = True
             elif o[0] == "cerr" and not x.closed:
                 hit("C04:double-close", "first close of receiver %s returned CloseError" % op[1])
@@ -688,16 +705,17 @@ def monitor(line, out):
             x.live = False
         elif t == "cn":
             p = rx.get(int(op[1]))
-            c = MRx(p.cur, p.asyn, derived=p.derived or p.closed)
+            c = MRx(p.cur, p.asyn, derived=p.derived or ("clone" if p.closed else None))
             if fx and p.closed:
                 c.closed = True
+                c.reg = False
                 c.derived = p.derived
             rx[int(op[2])] = c
         elif t == "cv":
             x = rx.get(int(op[1]))
             x.asyn = not x.asyn
             if x.closed and not fx:
-                x.derived = True
+                x.derived = "conv"
                 x.closed = False
                 x.reg = False          # its cursor no longer holds the sender back, by its own close
         elif t == "ob":
@@ -769,7 +787,7 @@ def monitor(line, out):
                     body = o[1:]
                     if body[0] == "ok":
                         if s_closed:
-                            hit("C04:closed-handle-accepts", "%s on closed sender accepted" % what)
+                            hit(sclause("C04:closed-handle-accepts"), "%s on closed sender accepted" % what)
                         check_accept(1, what)
                         accept(vs)
                     elif body[0] == "closed":
@@ -823,8 +841,11 @@ _ASSUME = [
     "spmc K2: blocking sync forms are exercised only where they return without parking (the harness refuses with WOULDBLOCK otherwise, as the model does)",
 ]
 
+WIT_CLONE_CLOSED = "1 s 0 cn 0 1 cl 0 ts 1 tr 1 ts 2 tr 1 cn 0 2 trb 2 5 ts 3 tr 2 sdr tr 2"
+
 PROPS = {
-    "C07": {"engines": [_ENG], "witness": {}, "assumptions": _ASSUME,
+    "C07": {"engines": [_ENG], "witness": {"F-spmc-clone-closed": (_ENG, WIT_CLONE_CLOSED, "C07:clone-of-closed")},
+            "assumptions": _ASSUME,
             "covers": "spmc broadcast (sync+async handles, single/batch/in-place forms, futures, Stream): per-receiver exact delivery from the creation position, backpressure by the slowest live receiver, release on close/drop, Disconnected only after drain",
             "engine_info": _INFO},
 }
